@@ -240,7 +240,7 @@ def real_dispatch_check(real: dict, src: str) -> list[dict]:
     return bad, n
 
 
-def run(ctx: Ctx) -> None:
+def run(ctx: Ctx, col=None) -> None:
     rng = ctx.rng
     n = ctx.pick(220, 2500)
     cache = ctx.tmp + "/mypy_cache_vt"
@@ -263,6 +263,8 @@ def run(ctx: Ctx) -> None:
             continue
         ctx.dist("vt_front_half", "compiled")
         real = dump_real(fr.modules["m"])
+        if col is not None and i % 4 == 0:
+            col.add_modules("hierarchies", fr.modules)
         cases.append((h, src, real, fr))
     compiled = [c for c in cases if c[2] is not None]
     crashed = [c for c in cases if c[2] is None]
